@@ -6,7 +6,7 @@
    the Lie-Trotter convergence itself. *)
 From Coq Require Import List Arith QArith Permutation.
 Import ListNotations.
-From Yaqs Require Import Model.PauliFSM Proofs.PauliFSMP Model.CircuitLib Proofs.CircuitLibP.
+From Yaqs Require Import Model.PauliFSM Proofs.PauliFSMP Model.CircuitLib Proofs.CircuitLibP Model.HamTerms Proofs.HamTermsP.
 
 Theorem C07_fsm_denotes_terms : forall L ts, (1 <= L)%nat -> (forall t, In t ts -> length (snd t) = L) -> denote (build L ts) = ts.
 Proof. exact fsm_denotes_terms. Qed.
@@ -18,6 +18,32 @@ Print Assumptions C07_ising_step_covers_chain.
 Theorem C07_ising_step_periodic : forall L, (1 < L)%nat -> ising_bonds L true = ising_bonds L false ++ [(0, L - 1)%nat].
 Proof. exact ising_bonds_periodic. Qed.
 Print Assumptions C07_ising_step_periodic.
+
+(* MPO.hamiltonian / ising / heisenberg: the term list handed to from_pauli_sum (tied to the real builders by capturing that
+   argument) couples every nearest-neighbour bond exactly once per two-body entry — plus the wrap-around bond when periodic —
+   and every site once per one-body entry, each with the coefficient of its entry; the automaton built from it denotes it *)
+Theorem C07_hamiltonian_bonds_open : forall L tb, map sites_of (two_terms L false tb) = map (fun i => [i; i + 1]%nat) (seq 0 (L - 1)).
+Proof. exact two_terms_open. Qed.
+Print Assumptions C07_hamiltonian_bonds_open.
+Theorem C07_hamiltonian_bonds_periodic : forall L tb, (1 <= L)%nat ->
+  map sites_of (two_terms L true tb) = map (fun i => [i; i + 1]%nat) (seq 0 (L - 1)) ++ [[L - 1; 0]%nat].
+Proof. exact two_terms_periodic. Qed.
+Print Assumptions C07_hamiltonian_bonds_periodic.
+Theorem C07_hamiltonian_fields : forall L ob, map sites_of (one_terms L ob) = map (fun i => [i]) (seq 0 L).
+Proof. exact one_terms_sites. Qed.
+Print Assumptions C07_hamiltonian_fields.
+Theorem C07_hamiltonian_coefficients : forall L per tb ob t,
+  (In t (two_terms L per tb) -> fst t = fst (fst tb)) /\ (In t (one_terms L ob) -> fst t = fst ob).
+Proof. intros L per tb ob t. split; [apply two_terms_coeff|apply one_terms_coeff]. Qed.
+Print Assumptions C07_hamiltonian_coefficients.
+Theorem C07_hamiltonian_term_count : forall L two one per,
+  length (ham_terms L two one per) = (length two * (if per then L else L - 1) + length one * L)%nat.
+Proof. exact ham_terms_count. Qed.
+Print Assumptions C07_hamiltonian_term_count.
+Theorem C07_hamiltonian_fsm_denotes : forall L two one per, (1 <= L)%nat ->
+  denote (build L (map (expand L) (ham_terms L two one per))) = map (expand L) (ham_terms L two one per).
+Proof. exact ham_fsm_denotes. Qed.
+Print Assumptions C07_hamiltonian_fsm_denotes.
 
 Example C07_example :
   let ts := [(1#2, [PZ;PZ;PI;PI]); (1#2, [PI;PZ;PZ;PI]); (1#2, [PI;PI;PZ;PZ]); (3#1, [PX;PI;PI;PI]); (3#1, [PI;PX;PI;PI]);
